@@ -24,6 +24,11 @@ Structure of the argument
        following `defer` with the matching unlock method; nothing else touches
        `Lockers`.
 
+  (C)  Also over `Generated/Locks.lean`: every *optional* acquisition (`doc.attachment`
+       in attach/detach/remove/admin update, `doc.push` in `pushPack`) is taken under
+       exactly the condition the check-then-act pair it protects needs
+       (`attachment_lock_conditions`, `conditional_acquisitions_expected`).
+
   (I)  `handlers_deadlock_free` – (G) instantiated with (T): any number of concurrent
        instances, with arbitrary keys, of the extracted functions whose script has no
        violation is deadlock free.
@@ -268,6 +273,82 @@ theorem releases_on_every_path :
 theorem extraction_complete : opaqueLockerUses = [] ∧ lockerUsesOutsideScope = [] := by
   decide
 
+/-! ## (C) the optional acquisitions are taken under the right condition
+
+The order theorems above are blind to *whether* an optional lock is taken: a handler
+that stops taking `doc.attachment` in one of the configurations that need it still has
+an ordered script (dropping an acquisition never creates an inversion, and the recorded
+sequences stay instances of the extracted script).  What such a change loses is the
+atomicity of a check-then-act pair, i.e. the *outcome* clause of C16 ("the result under
+concurrent attach/detach is the one some serial order gives").  `Site.cond` is the
+source text of the enclosing `if` conditions of every acquisition, regenerated on every
+run; the expectations below are written by hand from the handlers and from
+docs/design/fine-grained-document-locking.md ("Lock Acquisition Patterns"). -/
+
+/-- For every function that takes `doc.attachment`: the condition under which it must.
+
+  * SDK `AttachDocument` – `HasAttachmentLimit() || RemoveOnDetach ||` (the document has no
+    schema yet and the request brings one).  The lock makes atomic
+    (limit) "count the attached clients, refuse when the limit is reached" and the
+    PushPull that stores this client's attachment: without it two attachers both see
+    `limit - 1` and both get in;
+    (RemoveOnDetach) this attach against a last detacher's decision "nobody else is
+    attached or attaching ⇒ remove": without it a document is removed under a client whose
+    attach is in flight;
+    (schema) "nobody is attached (`count == 0`) ⇒ set the document's schema" against the
+    admin's "somebody is attached ⇒ refuse the schema update" and against a second first
+    attacher.
+  * SDK `DetachDocument` and cluster `DetachDocument` (the handler `clients.Deactivate`
+    calls for every attached document) – `HasAttachmentLimit() || RemoveOnDetach`.
+    (limit) the stored detach frees a slot that the attachers' count-then-attach is
+    serialised with; (RemoveOnDetach) "is any OTHER client still attached or attaching
+    (`IsDocumentAttachedOrAttaching`)?  if not, this detach removes the document" and the
+    PushPull that stores the detach: without the lock the last two detachers each see the
+    other one still attached, both detach, nobody removes the document – it stays alive
+    with zero attachments.
+  * SDK `RemoveDocument` – `HasAttachmentLimit()` only: the removal frees the slots the
+    attachers count under the lock; it takes no decision of its own from the attachment
+    set (the status is `removed` unconditionally), so RemoveOnDetach alone gives it no
+    check-then-act pair to protect.
+  * admin `UpdateDocument` – every mode that touches the schema
+    (`updateMode != UpdateModeRootOnly`): "no client is attached (`FindAttachedClientCount
+    = 0`), else `ErrDocumentAttached`" and the schema write, against an SDK attach. -/
+def attachmentLockCondition : List (String × String) :=
+  [("server/rpc.yorkieServer.AttachDocument",
+      "project.HasAttachmentLimit() || project.RemoveOnDetach || (docInfo.Schema == \"\" && req.Msg.SchemaKey != \"\")"),
+   ("server/rpc.yorkieServer.DetachDocument", "project.HasAttachmentLimit() || project.RemoveOnDetach"),
+   ("server/rpc.clusterServer.DetachDocument", "project.HasAttachmentLimit() || project.RemoveOnDetach"),
+   ("server/rpc.yorkieServer.RemoveDocument", "project.HasAttachmentLimit()"),
+   ("server/rpc.adminServer.UpdateDocument", "updateMode != documents.UpdateModeRootOnly")]
+
+def attachmentSitesOf (fn : String) : List Site :=
+  sites.filter (fun s => s.cls == "DocAttachmentKey" && s.fn == fn)
+
+/-- **Every `doc.attachment` acquisition is taken under exactly the expected condition**,
+    every expected function has exactly one such acquisition (so deleting the lock, or
+    moving it into a helper, is seen as well), and nobody else takes the lock. -/
+theorem attachment_lock_conditions :
+    (∀ s ∈ sites, s.cls = "DocAttachmentKey" → attachmentLockCondition.lookup s.fn = some s.cond) ∧
+    (∀ e ∈ attachmentLockCondition, (attachmentSitesOf e.1).map (·.cond) = [e.2]) := by
+  decide
+
+/-- all acquisition sites that are not unconditional: (function, class, condition).
+    `pushPack` takes `doc.push` only when it has something to store (`len(pushables) > 0`)
+    or the request removes the document: the lock makes "read the document's `server_seq`
+    and epoch, validate the pack against them" and "append the changes, advance
+    `server_seq`" atomic; a pack that stores nothing has no such pair. -/
+def conditionalSites : List (String × String × String) :=
+  ("server/packs.pushPack", "DocPushKey", "len(pushables) > 0 || reqPack.IsRemoved") ::
+    attachmentLockCondition.map (fun e => (e.1, "DocAttachmentKey", e.2))
+
+/-- **Every conditional acquisition's condition is one of the expected forms**, and the
+    two outer locks of every request, `doc` and `doc.pull`, as well as the watch-stream,
+    snapshot and housekeeping locks, are taken unconditionally. -/
+theorem conditional_acquisitions_expected :
+    (∀ s ∈ sites, s.cond = "" ∨ (s.fn, s.cls, s.cond) ∈ conditionalSites) ∧
+    (∀ s ∈ sites, s.cls ∉ ["DocAttachmentKey", "DocPushKey"] → s.cond = "") := by
+  decide
+
 /-! ## (I) generic theorem ∘ extracted facts -/
 
 /-- a running instance of an extracted function: which function, whether it is the
@@ -337,6 +418,13 @@ example : ∀ x ∈ ([⟨idx "server/rpc.yorkieServer.PushPullChanges", true, fu
                   ⟨idx "server/rpc.yorkieServer.AttachDocument", true, fun _ => 1⟩,
                   ⟨idx "server/rpc.clusterServer.CompactDocument", true, fun _ => 1⟩] : List Inst),
     violations classRank none [] (flatten fns x.rpcInlined flattenFuel x.fn) = [] := by decide
+
+/-- the condition facts are not vacuous: five `doc.attachment` sites, all conditional, and the
+    check rejects the SDK detach taking the lock under the attachment limit only -/
+example : (sites.filter (fun s => s.cls == "DocAttachmentKey")).length = 5
+    ∧ (sites.filter (fun s => s.cls == "DocAttachmentKey")).all (fun s => s.cond != "") = true
+    ∧ attachmentLockCondition.lookup "server/rpc.yorkieServer.DetachDocument" ≠ some "project.HasAttachmentLimit()" := by
+  decide
 
 /-! ## (W-model) the order hypothesis is necessary: an inverted script deadlocks
 
